@@ -63,10 +63,11 @@ func (c *caseRun) key(verb string, k kind, what string) string {
 // cause is the key layout <root>/<kind>/<task>, not an individual statement.
 func (c *caseRun) foreignKey(verb string, k kind, f tuple, a addr) string {
 	rel := relation(f, a, verb == "get")
-	if c.labelFor(k) == "etcd-rootpath-empty" && f.Root != a.Root {
-		rel = "other-root" // every tenant shares the one namespace: how the roots relate is irrelevant
-	} else if rel == relNested {
+	if rel == relNested {
 		return fmt.Sprintf("C12/%s/nested-root-path", c.cs.Backend)
+	}
+	if c.labelFor(k) == "etcd-rootpath-empty" && f.Root != a.Root {
+		rel = "other-root" // tenants sharing one namespace: how the (non-nested) roots relate is irrelevant
 	}
 	return c.key(verb, k, rel)
 }
